@@ -133,12 +133,12 @@ def _case(m1, m2, bad2, sel, custom, U=None):
             all_ = sorted(j.id for j in project)
             if sel == 2:
                 return []          # an empty selection: a view without links
-            return all_[1:] if (sel and len(all_) > 1) else all_
+            return all_[1:] if (sel in (1, 3) and len(all_) > 1) else all_
 
         def make(prefix):
             kw = dict(prefix=prefix, path=path)
             if sel:
-                kw["job_ids"] = ids()
+                kw["job_ids"] = ids() if sel != 3 else (i for i in ids())     # 3: a one-shot iterable (the parameter is documented as an iterable)
             ws_before = SL.snap(project.workspace)
             try:
                 project.create_linked_view(**kw)
@@ -198,11 +198,11 @@ def _homogeneous(project, ids):
 
 
 def h_view(m1: int, m2: int, bad2: int, sel: int, custom: bool):
-    assert 0 <= m1 < 64 and 0 <= m2 < 64 and 0 <= bad2 <= 2 and 0 <= sel <= 2 and part_ok(m2)
+    assert 0 <= m1 < 64 and 0 <= m2 < 64 and 0 <= bad2 <= 2 and 0 <= sel <= 3 and part_ok(m2)
     assert tier() != "quick" or (m1 in (0, 3, 15, 21, 48, 63) and bad2 <= 1)
-    assert sel != 2 or (not custom and bad2 == 0 and m1 in (0, 3, 63))
+    assert sel < 2 or (not custom and bad2 == 0 and m1 in (0, 3, 63))
     fresh_path()
-    m1, m2, bad2, sel, custom = ci(m1, 0, 63), ci(m2, 0, 63), ci(bad2, 0, 2), ci(sel, 0, 2), cb(custom)
+    m1, m2, bad2, sel, custom = ci(m1, 0, 63), ci(m2, 0, 63), ci(bad2, 0, 2), ci(sel, 0, 3), cb(custom)
     with nt():
         problems = _case(m1, m2, bad2, sel, custom)
     reached()
